@@ -9,12 +9,14 @@ tie-break among equal deadlines (`fire tok` is enabled for every due record of m
 deadline).  `exec init sts = some s` says that `sts` is such an execution.
 Sections: timer core (round 1) · termination of a pass and exact catch-up count · TimerPool.
 Round 3 (machine widths, explicit heap, waiting time of both engines): `WideProps.lean`, imported here.
+Round 4: whole-execution simulation between the width-faithful machine (`WideExec.lean`) and this model (last section).
 -/
 import TboxModel.C02.Proofs
 import TboxModel.C02.Dead
 import TboxModel.C02.Catchup
 import TboxModel.C02.PoolProofs
 import TboxModel.C02.WideProps
+import TboxModel.C02.WideSim
 namespace Tbox.C02
 
 /-- Master statement: every callback ever made is legitimate (see `FiredOk`). -/
@@ -439,5 +441,170 @@ example : (exec init (poolDemo.take 3)).map (fun s => (Pool.live s 0, (Pool.canc
 example : (exec init rearmDemo).map (fun s => (s.log.map fun e => (e.obj, e.n, e.base, e.passNow), s.nObjs, s.pool)) =
     some ([(1, 1, 3, 6), (0, 1, 1, 3)], 2, []) := by decide
 example : (Pool.doAt init 1000 1007 []).map (fun p => (p.2, p.1.timers.map (·.expired))) = some (0, [8]) := by decide
+
+/-! ### round 4: the width-faithful machine (`WideExec.lean`) simulates into this model, execution by execution
+
+`Wide.xexec A wl Wide.xinit sts = some x`: the machine at the widths of the C++ code (UInt64 clock and
+deadlines that may wrap, `long` intervals converted at `addTimer`, records in a heap-ordered vector
+served from the FRONT, `deleteTimer` by zero + make_heap + pop_heap + pop_back) runs the op list `sts`
+— the same `Step` language as above, callback scripts of any nesting included — on ANY heap library `A`
+meeting the standard's contract.  `Wide.bndSteps sts` (decidable): every millisecond count in the op list
+is a non-negative `long` (< 2^63); the machine itself refuses to advance the clock to 2^63 ms. -/
+
+/-- **whole-execution simulation**: every execution of the width-faithful machine from its initial state is an
+execution of the abstract model by the SAME op list (every `fire tok` the heap front forced is an enabled
+abstract step: due, minimal, armed), ending in a related state: same callback log, same object flags,
+same live pool tokens, the abstract record list is the heap vector up to order (`Wide.Sim`). -/
+theorem C02_wide_exec_simulates (A : Wide.Algs) (wl : Int64) (sts : List Step) (x : Wide.XState)
+    (hb : Wide.bndSteps sts = true) (he : Wide.xexec A wl Wide.xinit sts = some x) :
+    ∃ s, exec init sts = some s ∧ Wide.Sim x s :=
+  Wide.sim_exec A wl sts Wide.sim_init hb x he
+
+/-- … in observable terms: the same callback trace (who, in which pass, which deadline, which firing
+number), the same `isEnabled()` answers, the same live TimerPool tokens, the same clock. -/
+theorem C02_wide_exec_same_trace (A : Wide.Algs) (wl : Int64) (sts : List Step) (x : Wide.XState)
+    (hb : Wide.bndSteps sts = true) (he : Wide.xexec A wl Wide.xinit sts = some x) :
+    ∃ s, exec init sts = some s ∧ s.log = x.log ∧ s.pool = x.pool ∧ s.now = x.now.toNat ∧ s.nObjs = x.nObjs ∧
+      ∀ j, (s.obj j).alive = (x.obj j).alive ∧ (s.obj j).inited = (x.obj j).inited ∧
+           (s.obj j).enabled = (x.obj j).enabled := by
+  obtain ⟨s, e, h⟩ := C02_wide_exec_simulates A wl sts x hb he
+  refine ⟨s, e, h.log, h.pool, h.now, h.nObjs, fun j => ?_⟩
+  have : s.obj j = Wide.objOf (x.obj j) := h.objs j
+  rw [this]; exact ⟨rfl, rfl, rfl⟩
+
+/-- **the property, about the machine at width**: every callback the width-faithful machine ever makes —
+on any conforming heap library, with 64-bit wrapping arithmetic — was made on an alive, enabled object,
+not before `base + n·d`, on exactly that deadline, in deadline order within its pass, a one-shot only
+once.  (`C02_callbacks_legit` transported along the simulation.) -/
+theorem C02_wide_exec_callbacks_legit (A : Wide.Algs) (wl : Int64) (sts : List Step) (x : Wide.XState)
+    (hb : Wide.bndSteps sts = true) (he : Wide.xexec A wl Wide.xinit sts = some x) :
+    ∀ e ∈ x.log, FiredOk e := by
+  obtain ⟨s, e, h⟩ := C02_wide_exec_simulates A wl sts x hb he
+  rw [← h.log]
+  exact C02_callbacks_legit sts s e
+
+/-- **no 64-bit deadline of a reachable state has wrapped**: every record in the heap vector carries the
+mathematical deadline `base + (k+1)·interval`, belongs to an alive, enabled object, and is still below 2^64. -/
+theorem C02_wide_exec_deadlines_exact (A : Wide.Algs) (wl : Int64) (sts : List Step) (x : Wide.XState)
+    (hb : Wide.bndSteps sts = true) (he : Wide.xexec A wl Wide.xinit sts = some x) :
+    ∀ w ∈ x.loop.heap, w.expired.toNat = w.base + (w.k + 1) * w.interval.toNat ∧
+      (x.obj w.owner).alive = true ∧ (x.obj w.owner).enabled = true := by
+  obtain ⟨s, e, h⟩ := C02_wide_exec_simulates A wl sts x hb he
+  have hi := exec_inv init sts init_inv s e
+  intro w hw
+  have hm : Wide.toRec w ∈ s.timers := h.timers.mem_iff.2 (List.mem_map.2 ⟨w, hw, rfl⟩)
+  have ok := hi.recs _ hm
+  have ho : s.obj w.owner = Wide.objOf (x.obj w.owner) := h.objs w.owner
+  refine ⟨ok.deadline, ?_, ?_⟩
+  · have := ok.alive; rw [show (Wide.toRec w).owner = w.owner from rfl, ho] at this; exact this
+  · have := ok.enabled; rw [show (Wide.toRec w).owner = w.owner from rfl, ho] at this; exact this
+
+/-- **no skip, at width**: when the machine leaves the `while` loop of `handleExpiredTimers` (front not due at
+64-bit width, or empty vector) every alive, enabled object owns a heap record whose deadline
+`base + (k+1)·d` is strictly after the clock reading of the pass. -/
+theorem C02_wide_exec_no_skip (A : Wide.Algs) (wl : Int64) (sts : List Step) (x : Wide.XState) (t : UInt64)
+    (hb : Wide.bndSteps sts = true) (he : Wide.xexec A wl Wide.xinit sts = some x)
+    (hp : x.passNow = some t) (hend : Wide.xvalid A wl x .endPass = true) :
+    ∀ j, (x.obj j).alive = true → (x.obj j).enabled = true →
+      ∃ w ∈ x.loop.heap, w.owner = j ∧ t.toNat < w.base + (w.k + 1) * w.interval.toNat := by
+  obtain ⟨s, e, h⟩ := C02_wide_exec_simulates A wl sts x hb he
+  obtain ⟨hv, _⟩ := Wide.sim_step A wl h .endPass rfl hend
+  have hsp : s.passNow = some t.toNat := by rw [h.passNow, hp]; rfl
+  intro j ha hen
+  have ho : s.obj j = Wide.objOf (x.obj j) := h.objs j
+  obtain ⟨r, hr, hro, hlt⟩ := C02_no_skip sts s e t.toNat hsp hv j (by rw [ho]; exact ha) (by rw [ho]; exact hen)
+  obtain ⟨w, hw, rfl⟩ := List.mem_map.1 (h.timers.mem_iff.1 hr)
+  exact ⟨w, hw, hro, hlt⟩
+
+/-- non-vacuity: the op list `demo` (late pass, a callback disabling the other timer) runs on the
+width-faithful machine over the sorted-vector heap library, with the log of the abstract run -/
+example : Wide.bndSteps demo = true := by decide
+example : ((Wide.xexec (Heap.sortedAlgs Wide.key) 10000000 Wide.xinit demo).map fun x => x.log.map fun e => (e.obj, e.n, e.deadline)) =
+    some [(0, 2, 7), (0, 1, 4)] := by decide
+
+/-! ### round 4: the loop's own exit timer (`CommonLoop::exitLoop(wait)`)
+
+`exitLoop(w)` disables and deletes the pending exit timer, then either stops the loop (w = 0) or creates, initialises
+(one-shot, w ms) and enables a new one whose callback is `stopLoop()`.  For the timer core this is exactly what
+re-initialising and enabling ONE TimerEvent does (`initialize` disables first; a new C++ object instead of the old one
+makes no difference to heap and cabinet: the old record is removed, the new one gets a fresh token either way), so
+the exit timer is an ordinary object of the model — the "slot" — driven by `exitLoopActs`; `stopLoop()` is the slot's
+callback.  Every theorem above therefore speaks about it too (never early, once, deadline order with the user's timers,
+never after a later `exitLoop` replaced it, `getWaitTime` bounded by it).  The loop leaving and re-entering `runLoop`
+does not touch the heap: a pending exit timer survives into the next run (the repository's tests arm it before
+`runLoop()`), tied on every run by the harness (`xl`, `xlo`, `q` ops). -/
+
+/-- `CommonLoop::exitLoop(w)` as calls on the exit-timer slot -/
+def exitLoopActs (slot w : Nat) : List Act := if w = 0 then [.disable slot] else [.init slot w true, .enable slot]
+
+/-- **exitLoop(w), w ≥ 1, starts one fresh full wait**: whatever exit timer was pending (armed earlier with another
+wait, due in this very pass, already fired), afterwards the slot owns exactly ONE record, it expires at `now + w`
+(a full interval from the call, not from the earlier call), is a one-shot that has not fired. -/
+theorem C02_exit_arms_fresh (s : State) (slot w : Nat) (hi : Inv s) (ha : (s.obj slot).alive = true) :
+    ∃ r ∈ (runScript s (exitLoopActs slot (w + 1))).timers, r.owner = slot ∧ r.expired = s.now + (w + 1) ∧ r.base = s.now ∧
+      r.k = 0 ∧ r.oneshot = true ∧ ∀ q ∈ (runScript s (exitLoopActs slot (w + 1))).timers, q.owner = slot → q = r := by
+  have hs1 : Inv (initTimer s slot (w + 1) true).1 := initTimer_inv s slot (w + 1) true hi
+  have e1 : (initTimer s slot (w + 1) true).1 = ((disable s slot).1.setObj slot
+      { (disable s slot).1.obj slot with interval := w + 1, oneshot := true, inited := true }) := by
+    unfold initTimer; simp [ha]
+  have hal : ((initTimer s slot (w + 1) true).1.obj slot).alive = true := by
+    rw [e1]; simp [disable_alive, ha]
+  have hin : ((initTimer s slot (w + 1) true).1.obj slot).inited = true := by rw [e1]; simp
+  have hiv : ((initTimer s slot (w + 1) true).1.obj slot).interval = w + 1 := by rw [e1]; simp
+  have hos : ((initTimer s slot (w + 1) true).1.obj slot).oneshot = true := by rw [e1]; simp
+  have hnow : (initTimer s slot (w + 1) true).1.now = s.now := by rw [e1]; simp [(disable_fields s slot).1]
+  have hen : ((initTimer s slot (w + 1) true).1.obj slot).enabled = false := by
+    rw [e1]; simp
+    rcases disable_not_enabled s slot ha with h | h
+    · exact h
+    · -- not initialised: the object cannot be enabled (no record may belong to it), `disable` left it as it was
+      have hd : (disable s slot).1 = s := by simp [disable, ha, h]
+      rw [hd]
+      cases he : (s.obj slot).enabled with
+      | false => rfl
+      | true =>
+        obtain ⟨r, hr, ho⟩ := hi.hasRec slot ha he
+        have := (hi.recs r hr).inited; rw [ho, h] at this; cases this
+  have hrun : runScript s (exitLoopActs slot (w + 1)) = (enable (initTimer s slot (w + 1) true).1 slot).1 := by
+    simp [exitLoopActs, runScript, act]
+  rw [hrun]
+  obtain ⟨r, hr, ho, hex, hk, hb, _⟩ := C02_reenable_fresh (initTimer s slot (w + 1) true).1 slot hal hin hen
+  have hi2 := enable_inv _ slot hs1
+  refine ⟨r, hr, ho, by rw [hex, hnow, hiv], by rw [hb, hnow], hk, ?_, ?_⟩
+  · have := (hi2.recs r hr).oneshot
+    rw [ho] at this
+    rw [← this]
+    simp [enable, hal, hin, hen, hos]
+  · intro q hq hqo
+    exact tok_inj hi2.nodup hq hr (owner_unique hi2 hq hr (hqo.trans ho.symm))
+
+/-- **exitLoop(0) (and the first half of every exitLoop) disarms**: afterwards no record belongs to the slot, so the old
+exit timer can never stop the loop — also when it was the heap front and due in the running pass. -/
+theorem C02_exit_zero_disarms (s : State) (slot : Nat) (hi : Inv s) (ha : (s.obj slot).alive = true) :
+    ∀ r ∈ (runScript s (exitLoopActs slot 0)).timers, r.owner ≠ slot := by
+  have hrun : runScript s (exitLoopActs slot 0) = (disable s slot).1 := by simp [exitLoopActs, runScript, act]
+  rw [hrun]
+  have hi1 := disable_inv s slot hi
+  rcases disable_not_enabled s slot ha with h | h
+  · exact no_rec_of_not_enabled hi1 h
+  · intro r hr ho
+    have := (hi1.recs r hr).inited
+    have hd : (disable s slot).1 = s := by simp [disable, ha, h]
+    rw [hd] at this hr
+    rw [ho, h] at this; cases this
+
+/-- the exit timer never stops the loop early, stops it once per `exitLoop` call, in deadline order with the user's timers:
+the instance of `C02_callbacks_legit` for the slot (its callback IS `stopLoop()`). -/
+theorem C02_exit_not_early (sts : List Step) (s : State) (slot : Nat) (he : exec init sts = some s) :
+    ∀ e ∈ s.log, e.obj = slot → e.base + e.n * e.interval ≤ e.passNow ∧ e.okAtCall = true ∧ e.prevDeadline ≤ e.deadline ∧
+      (e.oneshot = true → e.n = 1) :=
+  fun e h _ => ⟨(C02_callbacks_legit sts s he e h).notEarly, (C02_callbacks_legit sts s he e h).okAtCall,
+                (C02_callbacks_legit sts s he e h).ordered, (C02_callbacks_legit sts s he e h).once⟩
+
+/-- non-vacuity: slot 0, a user timer 1 (5 ms); exitLoop(7), then exitLoop(3) at t = 6 replaces it: one slot record, due at 9 -/
+example : ((exec init [.newObj [], .newObj [], .api (.init 1 5 false), .api (.enable 1)]).map fun s =>
+    let s1 := runScript s (exitLoopActs 0 7)
+    let s2 := runScript { s1 with now := s1.now + 5 } (exitLoopActs 0 3)
+    (s2.timers.filter (fun r => r.owner == 0)).map fun r => (r.expired, r.base, r.oneshot)) = some [(9, 6, true)] := by decide
 
 end Tbox.C02
